@@ -57,7 +57,11 @@ def save_checkpoint(root_dir: str,
   """Saves checkpoint and cleans up old checkpoints."""
   base_path = os.path.join(root_dir, _CHECKPOINT_PREFIX)
   checkpoint_path = f'{base_path}{round_num:08d}'
-  serialization.save_state(state, checkpoint_path)
+  # Write under a temporary name first so that a partially written file is never
+  # visible under a checkpoint name.
+  tmp_path = checkpoint_path + '.tmp'
+  serialization.save_state(state, tmp_path)
+  tf.io.gfile.rename(tmp_path, checkpoint_path, overwrite=True)
   remove_checkpoint_paths = _get_checkpoint_paths(base_path)[:-keep]
   for path in remove_checkpoint_paths:
     tf.io.gfile.remove(path)
